@@ -108,6 +108,7 @@ def bech32_decode(data: bytes) -> bytes:
         d = d.to_bytes(1, "big")  # translate back to byte value
         integers.append(bech32_int_map[d])
 
+    assert integers, "empty data"
     # rearrange into 8-bit groups
     decoded_bits = 5 * len(integers)
     decoded = integers[0]
